@@ -289,7 +289,7 @@ type c30Option struct {
 type c30Case struct {
 	File     map[string]map[uint16]string `json:"file"` // nil = no file
 	// EmptyDoc: how a file without entries is written: 0 "{}", 1 a document of comments only (null),
-	// 2 "~", 3 "null"
+	// 2 "~", 3 "null"; 4-6 no document at all: empty file, a newline, comments without "---"
 	EmptyDoc int `json:"empty_doc,omitempty"`
 	// EmptySection: how a client block without entries is written: 0 "c1:" (null), 1 "c1: {}", 2 "c1: ~"
 	EmptySection int `json:"empty_section,omitempty"`
@@ -324,7 +324,7 @@ func genC30(t *rapid.T) c30Case {
 		}
 	}
 	if c.File != nil && len(c.File) == 0 {
-		c.EmptyDoc = rapid.IntRange(0, 3).Draw(t, "empty_doc")
+		c.EmptyDoc = rapid.IntRange(0, 6).Draw(t, "empty_doc")
 	}
 	n := rapid.IntRange(0, 4).Draw(t, "nopts")
 	for i := 0; i < n; i++ {
@@ -424,7 +424,13 @@ func (c c30Case) configArgs(dir string) (args, env []string, err error) {
 			}
 		}
 		if len(c.File) == 0 {
-			sb.WriteString([]string{"{}\n", "# c1:\n#   1: commented/out\n", "~\n", "null\n"}[c.EmptyDoc%4])
+			if c.EmptyDoc >= 4 {
+				// no document at all: an empty file, a newline, comments only (no "---" either)
+				sb.Reset()
+				sb.WriteString([]string{"", "\n", "# no entries yet\n# c1:\n#   1: commented/out\n"}[c.EmptyDoc-4])
+			} else {
+				sb.WriteString([]string{"{}\n", "# c1:\n#   1: commented/out\n", "~\n", "null\n"}[c.EmptyDoc%4])
+			}
 		}
 		path := filepath.Join(dir, "topics.yaml")
 		if err := os.WriteFile(path, []byte(sb.String()), 0o644); err != nil {
@@ -805,7 +811,7 @@ func contains(s []string, x string) bool {
 func TestC30(t *testing.T) {
 	vf.Check(t, vf.Prop[c30Case]{
 		ID: "C30", Name: "predefined-config",
-		Rule: "real binaries on loopback sockets: a YAML file (0-3 client blocks from {'*', c1, c2}, IDs 1-4, names incl. ones that need YAML quoting; a file without entries written as {}, as a document of comments only, as ~ or as null; a client block without entries written as 'c1:', 'c1: {}' or 'c1: ~') and/or 0-4 --predefined-topic options ('name;id' and 'client;name;id', overlapping the file and each other, order significant), given by flags or by environment variables; a probe client ID inside or outside the configuration. bisquitt is probed with a PUBLISH on each predefined ID 1-4 (broker-side topic or dropped session), bisquitt-pub and bisquitt-sub with topic names the model knows for the probe client and one it does not (PUBLISH/SUBSCRIBE by predefined ID vs REGISTER/SUBSCRIBE by name). Non-trivial = a configuration with both a file and at least one option that overrides a file entry; distinct by case.",
+		Rule: "real binaries on loopback sockets: a YAML file (0-3 client blocks from {'*', c1, c2}, IDs 1-4, names incl. ones that need YAML quoting; a file without entries written as {}, as a document of comments only, as ~ or as null, or without any document at all (empty file, a newline, comments without '---'); a client block without entries written as 'c1:', 'c1: {}' or 'c1: ~') and/or 0-4 --predefined-topic options ('name;id' and 'client;name;id', overlapping the file and each other, order significant), given by flags or by environment variables; a probe client ID inside or outside the configuration. bisquitt is probed with a PUBLISH on each predefined ID 1-4 (broker-side topic or dropped session), bisquitt-pub and bisquitt-sub with topic names the model knows for the probe client and one it does not (PUBLISH/SUBSCRIBE by predefined ID vs REGISTER/SUBSCRIBE by name). Non-trivial = a configuration with both a file and at least one option that overrides a file entry; distinct by case.",
 		Assumptions: []string{"model mapping = the file's, overridden entry by entry by the options in order, two-field options under '*'", "an ID chosen by a tool passes if the model maps it back to the requested name for this client (C05's shadowing question is not double-reported)", "real time: a timeout is inconclusive (skipped)"},
 		Gen:         genC30,
 		Run:         runC30,
